@@ -6,6 +6,7 @@
 import Shm.Model.Machine
 import Shm.Lemmas.StepInv
 import Shm.Model.Wrap
+import Shm.Lemmas.ConfigLemmas
 namespace Shm.C07
 open Shm
 
@@ -389,3 +390,23 @@ theorem C07_derive_only_if (s : State) (h mech : Nat) (p : MParam) (bkH : Nat) (
   exact ⟨e1, bk, hbk, by simpa using hder, by simpa using hperm, by simpa using hmech⟩
 
 end Shm.C07
+
+/-! ### from the configuration file to the mechanism filter -/
+namespace Shm.Pure.Config
+open Shm
+
+/-- **`slots.mechanisms = <list>` reaches the mechanism filter verbatim**: a configuration file consisting of that one line yields exactly the string setting `slots.mechanisms`
+    with exactly the list as written (which `parseMechCfg` / `supportedMechs` of the state model then interpret, and the K07 matrices exercise) -/
+theorem C07_conf_mechanisms_line (v : Bytes) (hv : PlainTok v) (hlen : v.length < 990) :
+    (load (keyBytes "slots.mechanisms" ++ [0x20, 0x3d, 0x20] ++ v ++ [0x0a])).get "slots.mechanisms" = some (.str v) := by
+  have hk : typeOf (keyBytes "slots.mechanisms") = some ("slots.mechanisms", .str) := by decide +kernel
+  have hkp : PlainTok (keyBytes "slots.mechanisms") := by
+    constructor
+    · decide +kernel
+    · decide +kernel
+  have hl : (keyBytes "slots.mechanisms").length = 16 := by decide +kernel
+  exact load_single_string "slots.mechanisms" v hk hkp hv (by rw [hl]; omega)
+
+example : PlainTok ("-CKM_SHA256,CKM_AES_KEY_GEN".toUTF8.toList) := by constructor <;> decide +kernel
+
+end Shm.Pure.Config
